@@ -195,3 +195,14 @@ Theorem C08_model_meets_integrity_kind_monitor : forall (cf:config) (m:mech) (mc
   forall x, In x (run_mon_lt mc cc (init cf m) (mall0 cc) ops) -> lv_key x = true.
 Proof. exact AgentMeets3.model_meets_C13_ltkey. Qed.
 Print Assumptions C08_model_meets_integrity_kind_monitor.
+
+(* ---- the attributes the credential mechanism reads of a received message come from the agent's own ordering filter
+   (ProtectedAttributeIteratorObject::next, stun-agent/src/lib.rs). Its Rust text, translated by tools/rs2v.py on every run
+   (Generated/Code.v), yields exactly the attributes the RFC 8489 ordering rule admits, for every sequence of attribute kinds
+   (Proofs/CodeAgreeIter.v) — the abstract model's rfc_filter is that rule *)
+From Rustun Require Import Base.GRes Generated.Code Codec.Filter Proofs.CodeAgreeIter.
+Theorem C08_code_protected_iter_is_rfc_rule : forall ks,
+  gen_collect (S (length ks)) (mk_iter ks {| f_mi := false; f_sha := false; f_fp := false |})
+  = map kind_code (keep_admitted (allow {| s_mi := false; s_sha := false; s_fp := false |} ks) ks).
+Proof. exact CodeAgreeIter.code_protected_iter_is_rfc_rule. Qed.
+Print Assumptions C08_code_protected_iter_is_rfc_rule.
